@@ -2,7 +2,7 @@
 From Coq Require Import List ZArith Lia Bool Arith.
 Import ListNotations.
 Require Import C01.Sums C01.Batch C01.Tensor C01.OpExpr C01.Model.
-Require Import C01.ProofsBase C01.ProofsAlg.
+Require Import C01.Covered C01.ProofsBase C01.ProofsAlg.
 Open Scope Z_scope.
 
 (* Bout = rp * pbs dimension-wise, all pbs dimensions positive *)
@@ -138,3 +138,72 @@ Qed.
 
 Lemma dtr_drepeat A rep : dtr (drepeat A rep) == drepeat (dtr A) rep.
 Proof. repeat split. Qed.
+
+(* ---- the broadcasting branch (rectangular base), when no batch dimension of size > 1 is really repeated ------------- *)
+
+Lemma notile_sub bs : forall rep, notile bs rep = true -> (length bs <= length rep)%nat -> bsub bs (brep bs rep) = true.
+Proof.
+  induction bs as [|d bs IH]; intros rep HN HL; [reflexivity|]. destruct rep as [|r rep]; [simpl in HL; lia|].
+  simpl in *. apply andb_true_iff in HN. destruct HN as [H1 H2]. rewrite (IH rep H2 ltac:(lia)), andb_true_r.
+  apply orb_true_iff in H1. destruct H1 as [H1|H1]; apply Nat.eqb_eq in H1; subst.
+  - reflexivity.
+  - rewrite Nat.mul_1_r, Nat.eqb_refl. apply orb_true_r.
+Qed.
+
+Lemma bsub_bcompat_trans a c x : bsub a c = true -> bcompat c x = true -> bcompat a x = true.
+Proof.
+  revert c x; induction a as [|u a IH]; intros c x HS HC; [reflexivity|].
+  destruct c as [|v c]; [discriminate|]. destruct x as [|w x]; [reflexivity|].
+  simpl in *. apply andb_true_iff in HS. destruct HS as [S1 S2]. apply andb_true_iff in HC. destruct HC as [C1 C2].
+  rewrite (IH c x S2 C2), andb_true_r.
+  apply sub_spec in S1. apply cpt_spec in C1. apply cpt_spec. lia.
+Qed.
+
+Lemma notile_index bs : forall rep xs I, forallb pos bs = true -> (length bs <= length rep)%nat -> notile bs rep = true ->
+  inb (bcast (brep bs rep) xs) I -> bmod bs (bproj (brep bs rep) I) = bproj bs I.
+Proof.
+  induction bs as [|s bs IH]; intros rep xs I HP HL HN; simpl; [reflexivity|].
+  destruct rep as [|r rep]; [simpl in HL; lia|]. simpl in HP, HN, HL.
+  apply andb_true_iff in HP. destruct HP as [Hs HP]. apply andb_true_iff in HN. destruct HN as [HN1 HN].
+  unfold pos in Hs. apply Nat.ltb_lt in Hs.
+  assert (Hcomp : forall i, (s = 1 \/ (r = 1 /\ i < s))%nat -> ((if (s * r =? 1)%nat then 0 else i) mod s = if (s =? 1)%nat then 0 else i)%nat).
+  { intros i [->|[-> Hi]].
+    - rewrite Nat.mod_1_r. reflexivity.
+    - rewrite Nat.mul_1_r. destruct (Nat.eqb_spec s 1); [subst; reflexivity|]. apply Nat.mod_small. exact Hi. }
+  apply orb_true_iff in HN1.
+  destruct xs as [|x xs]; destruct I as [|i I]; simpl; try tauto.
+  - intros [Hi HI]. f_equal.
+    + apply Hcomp. destruct (Nat.eqb_spec s 1) as [E1|E1]; [left; exact E1|right].
+      destruct HN1 as [E|E]; [try discriminate E; apply Nat.eqb_eq in E; contradiction|apply Nat.eqb_eq in E]. subst r. split; [reflexivity|lia].
+    + specialize (IH rep [] I HP ltac:(lia) HN). rewrite bcast_cons_nil_r in IH. apply IH. exact HI.
+  - intros [Hi HI]. f_equal.
+    + apply Hcomp. destruct (Nat.eqb_spec s 1) as [E1|E1]; [left; exact E1|right].
+      destruct HN1 as [E|E]; [try discriminate E; apply Nat.eqb_eq in E; contradiction|apply Nat.eqb_eq in E]. subst r. split; [reflexivity|].
+      rewrite Nat.mul_1_r in Hi. destruct (Nat.eqb_spec s 1); [contradiction|exact Hi].
+    + apply (IH rep xs I HP ltac:(lia) HN). exact HI.
+Qed.
+
+Lemma acts_batchrepeat_rect g B rep :
+  acts g B -> forallb pos (bsh B) = true -> (length (bsh B) <= length rep)%nat -> notile (bsh B) rep = true ->
+  acts (fun X => dexpand (bcast (brep (bsh B) rep) (bsh X)) (g X)) (drepeat B rep).
+Proof.
+  intros HG HP HL HN X [H1 H2]. simpl in H1, H2.
+  set (bs := bsh B) in *. set (S := brep bs rep) in *. set (Bout := bcast S (bsh X)).
+  assert (HsubS : bsub bs S = true) by (apply notile_sub; assumption).
+  assert (HCB : bcompat bs (bsh X) = true) by (eapply bsub_bcompat_trans; eauto).
+  assert (HgX : g X == dmm B X) by (apply HG; split; assumption).
+  assert (SS : bsub S Bout = true) by (apply bsub_bcast_l; exact H2).
+  assert (SX : bsub (bsh X) Bout = true) by (apply bsub_bcast_r; exact H2).
+  assert (SB : bsub bs Bout = true) by (eapply bsub_trans; eauto).
+  assert (SBX : bsub (bcast bs (bsh X)) Bout = true) by (apply (proj1 (bsub_lub _ _ _ SB SX))).
+  destruct (BTeq_shape _ _ HgX) as (g1 & g2 & g3). simpl in g1, g2, g3. fold bs in g1.
+  unfold dexpand, dmm, drepeat. fold bs S Bout. unfold BTeq. cbn [bsh nr nc ent].
+  split; [reflexivity|]. split; [exact g2|]. split; [exact g3|].
+  intros I i j HI Hi Hj.
+  rewrite (BTeq_bget (g X) (dmm B X) Bout I i j HgX); [|rewrite g1; exact SBX|exact HI|exact Hi|exact Hj].
+  unfold bget at 1. cbn [dmm bsh ent]. fold bs.
+  apply zsum_ext. intros l Hl. f_equal.
+  - unfold bget. cbn [bsh ent]. fold bs S. rewrite bproj_bproj by (apply bsub_bcast_l; exact HCB).
+    f_equal. symmetry. apply (notile_index bs rep (bsh X) I HP HL HN HI).
+  - unfold bget. rewrite bproj_bproj by (apply bsub_bcast_r; exact HCB). reflexivity.
+Qed.
